@@ -470,6 +470,19 @@ def check_config(v, name, invariants, dev, variants=None):
         v.cov['transitions'] += r1.generated
         for var, (g, gf, f2) in graphs.items():
             r2 = f2.result()
+            if r2.error and ('Attempted to' in r2.error or
+                             'nonexistent field' in r2.error):
+                # the implementation produced a value of a shape the
+                # specification cannot even compare with its own (never on a
+                # tree that follows it): a rejected edge, not a tool failure
+                import re
+                m = re.search(r'(Attempted to[^\n]*(\n[^\n]*){0,6})',
+                              r2.error)
+                rep = {'config': name, 'impl': var,
+                       'verdict': 'EDGE_REJECTED (ill-shaped value): ' +
+                       (m.group(1) if m else r2.error[-600:])}
+                v._last_reject = rep
+                return ('REJECT', rep)
             if r2.error:
                 v.error('TLC G2 failed on %s/%s: %s' % (name, var, r2.error))
                 return False
